@@ -23,177 +23,7 @@ func checkC14(c *Ctx, w *World) {
 	}
 	p := m.p
 
-	// ---- C14.status
-	m.whoMayWrite("C14.status", "endpoint.status", map[string][]string{fname(m.setState): {"store"}})
-	m.whoMayWrite("C14.status", "endpoint.lastChange", map[string][]string{fname(m.setState): {"store"}})
-	m.whoMayWrite("C14.status", "endpoint.futureChange", map[string][]string{fname(m.sched): {"store"}})
-	e, s := m.setState.Params[0], m.setState.Params[1]
-	var stStore, tsStore *ssa.Store
-	var stopCall *ssa.Call
-	for _, a := range m.ai.ByFn[m.setState] {
-		if a.What == "store" && a.Base == ssa.Value(e) {
-			st := a.Instr.(*ssa.Store)
-			if a.Field == "endpoint.status" && st.Val == ssa.Value(s) {
-				stStore = st
-			}
-			if a.Field == "endpoint.lastChange" && isTimeNowVar(st.Val) {
-				tsStore = st
-			}
-		}
-	}
-	eachInstr(m.setState, func(in ssa.Instruction) {
-		if call, ok := in.(*ssa.Call); ok && call.Call.IsInvoke() && call.Call.Method.Name() == "Stop" {
-			if f, base, isL := loadedField(call.Call.Value); isL && f == "endpoint.futureChange" && base == ssa.Value(e) {
-				stopCall = call
-			}
-		}
-	})
-	okSS := stStore != nil && tsStore != nil && stopCall != nil
-	if okSS {
-		for _, r := range returnsOf(m.setState) {
-			if !dominatesInstr(stStore, r) || !dominatesInstr(tsStore, r) {
-				okSS = false
-			}
-		}
-		cs := newCondSpace(m.setState, recOf(eqAtom("noTimer", func(v ssa.Value) bool { f, b, ok := loadedField(v); return ok && f == "endpoint.futureChange" && b == ssa.Value(e) }, isNil)), "noTimer")
-		// Stop is skipped only when there is no timer
-		acs := newCondSpaceAvoid(m.setState, recOf(eqAtom("noTimer", func(v ssa.Value) bool { f, b, ok := loadedField(v); return ok && f == "endpoint.futureChange" && b == ssa.Value(e) }, isNil)), map[*ssa.BasicBlock]bool{stopCall.Block(): true}, "noTimer")
-		_ = cs
-		if imp, _ := acs.Implies(acs.Reach(stStore), acs.Atom("noTimer")); !imp {
-			okSS = false
-		}
-		if !dominatesOrBefore(stopCall, stStore) {
-			okSS = false
-		}
-	}
-	c.check(okSS, "C14.status", "setState: stop, store, stamp", p.pos(m.setState.Pos()), "on every path a pending timer is stopped (skipped only when none exists), then the status is stored and lastChange stamped with timeNow()", "setState does not stop the pending timer, store the status and stamp the change time on every path")
-	// status changes go through setState only: callers
-	m.whoMayCall("C14.status", m.setState, fname(m.seaInner), fname(m.recovery))
-
-	// ---- C14.outdated
-	for _, cl := range []*ssa.Function{m.delayed, m.recovery} {
-		first := true
-		var lockIns ssa.Instruction
-		for _, in := range cl.Blocks[0].Instrs {
-			if cc := callCommon(in); cc != nil {
-				if op, ok := m.lf.lockOpOf(cc); ok && op.kind == "Lock" && op.lock == "multiEndpoint.RWMutex" {
-					if _, isDefer := in.(*ssa.Defer); !isDefer {
-						lockIns = in
-						break
-					}
-				}
-				first = false
-			}
-		}
-		okAcc := lockIns != nil && first
-		for _, a := range m.ai.ByFn[cl] {
-			if a.Mode == "L" || a.Field == "multiEndpoint.RWMutex" {
-				continue
-			}
-			if m.lf.HeldAt(a.Instr)["multiEndpoint.RWMutex"] != 2 {
-				okAcc = false
-			}
-		}
-		c.check(okAcc, "C14.outdated", fname(cl)+": locks first", p.pos(cl.Pos()), "the timer callback takes the write lock before touching any state", "timer callback accesses state before/without taking the write lock")
-	}
-	// the recovery closure acts only if lastChange still equals the stamp captured at scheduling time
-	var capturedStamp *ssa.FreeVar
-	for _, fv := range m.recovery.FreeVars {
-		if b := freeVarBinding(fv); b != nil {
-			if al, ok := b.(*ssa.Alloc); ok {
-				sts := storesTo(al)
-				if len(sts) == 1 {
-					if f, base, isL := loadedField(sts[0].Val); isL && f == "endpoint.lastChange" && originsAll(base, func(o Origin) bool { return o.Val == ssa.Value(m.sched.Params[1]) }) {
-						capturedStamp = fv
-					}
-				}
-			}
-		}
-	}
-	isCapturedE := func(v ssa.Value) bool {
-		return originsAll(v, func(o Origin) bool { return o.Val == ssa.Value(m.sched.Params[1]) })
-	}
-	isStampNow := func(v ssa.Value) bool {
-		f, base, ok := loadedField(v)
-		return ok && f == "endpoint.lastChange" && isCapturedE(base)
-	}
-	isStampThen := func(v ssa.Value) bool {
-		u, ok := stripConv(v).(*ssa.UnOp)
-		return ok && capturedStamp != nil && u.X == ssa.Value(capturedStamp)
-	}
-	rcs := newCondSpace(m.recovery, recOf(eqAtom("stampUnchanged", isStampNow, isStampThen)), "stampUnchanged")
-	nss := 0
-	for _, call := range m.callsIn(m.recovery, m.setState) {
-		nss++
-		imp, wit := rcs.Implies(rcs.Reach(call), rcs.Atom("stampUnchanged"))
-		stv, isC := constInt(call.Call.Args[1])
-		c.check(imp && rcs.Seen("stampUnchanged") && isC && stv == m.unavailable && isCapturedE(call.Call.Args[0]), "C14.outdated", "recovery timer: re-validates its stamp", p.ipos(call),
-			"the endpoint is marked unavailable only if its lastChange still equals the value captured when the timer was scheduled (any later state change outdates the timer)",
-			"an outdated recovery timer can still mark the endpoint unavailable: "+wit)
-	}
-	c.floor("C14.outdated", nss, 1)
-
-	// ---- C14.no-extend
-	sites := m.whoMayCall("C14.no-extend", m.sched, fname(m.newEp), fname(m.seaInner))
-	for _, s := range sites {
-		switch s.Fn {
-		case m.newEp:
-			isNew := func(v ssa.Value) bool { al, ok := stripConv(v).(*ssa.Alloc); return ok && al.Parent() == m.newEp }
-			cs := newCondSpace(m.newEp, recOf(eqAtom("recovering", statusOf(isNew), constIs(m.recovering))), "recovering")
-			imp, wit := cs.Implies(cs.Reach(s.Instr), cs.Atom("recovering"))
-			c.check(imp, "C14.no-extend", "newEndpoint → scheduleUnavailable", p.ipos(s.Instr), "a new endpoint gets a recovery timer only when it starts as recovering", "timer scheduled for a new endpoint that is not recovering: "+wit)
-		case m.seaInner:
-			var lk *ssa.Lookup
-			eachInstr(m.seaInner, func(in ssa.Instruction) {
-				if l, ok := in.(*ssa.Lookup); ok && l.CommaOk && isLoadOf(l.X, "multiEndpoint.endpoints") && l.Index == ssa.Value(m.seaInner.Params[1]) {
-					lk = l
-				}
-			})
-			isEE := func(v ssa.Value) bool { return lk != nil && isExtractOf(stripConv(v), lk, 0) }
-			atoms := []atomDef{
-				boolAtom("known", func(v ssa.Value) bool { return lk != nil && isExtractOf(stripConv(v), lk, 1) }),
-				boolAtom("avail", isVal(m.seaInner.Params[2])),
-				eqAtom("wasAvailable", statusOf(isEE), constIs(m.available)),
-				eqAtom("noRecovery", loadOf("multiEndpoint.recoveryTimeout"), constIs(0)),
-			}
-			cs := newCondSpace(m.seaInner, recOf(atoms...), atomNames(atoms...)...)
-			A := cs.Atom
-			imp, wit := cs.Implies(cs.Reach(s.Instr), cs.And(A("known"), cs.Not(A("avail")), A("wasAvailable"), cs.Not(A("noRecovery"))))
-			c.check(imp, "C14.no-extend", "setEndpointAvailability → scheduleUnavailable", p.ipos(s.Instr), "a recovery timer is scheduled only on the available→recovering transition of a known endpoint with a recovery timeout: repeated unavailable reports schedule nothing", "an unavailable report for an endpoint that is already recovering/unavailable can (re)schedule the recovery timer, extending the window: "+wit)
-			// the scheduling is preceded by setState(ee, recovering)
-			okPrev := false
-			for _, call := range m.callsIn(m.seaInner, m.setState) {
-				if v, isC := constInt(call.Call.Args[1]); isC && v == m.recovering && isEE(call.Call.Args[0]) && dominatesInstr(call, s.Instr) {
-					okPrev = true
-				}
-			}
-			c.check(okPrev, "C14.no-extend", "recovering state set before scheduling", p.ipos(s.Instr), "setState(ee, recovering) dominates the scheduling (the timer captures the fresh stamp)", "timer scheduled without first entering the recovering state")
-			// ---- C14.cancel: availability report always reaches setState(ee, available)
-			nav := 0
-			for _, call := range m.callsIn(m.seaInner, m.setState) {
-				if v, isC := constInt(call.Call.Args[1]); isC && v == m.available {
-					nav++
-					eq, w2 := cs.Equiv(cs.OnlyNamed(cs.Reach(call)), cs.And(A("known"), A("avail")))
-					c.check(eq && isEE(call.Call.Args[0]), "C14.cancel", "setEndpointAvailability: available report", p.ipos(call), "setState(ee, available) ⇔ known endpoint ∧ report says available (pending recovery timer stopped and outdated)", "an availability report does not always mark the endpoint available: "+w2)
-				}
-				if v, isC := constInt(call.Call.Args[1]); isC && v == m.unavailable {
-					eq, w2 := cs.Equiv(cs.OnlyNamed(cs.Reach(call)), cs.And(A("known"), cs.Not(A("avail")), A("wasAvailable"), A("noRecovery")))
-					c.check(eq, "C14.cancel", "setEndpointAvailability: immediate unavailable", p.ipos(call), "setState(ee, unavailable) ⇔ known ∧ unavailable report ∧ was available ∧ no recovery timeout", "immediate unavailability is applied under the wrong condition: "+w2)
-				}
-			}
-			c.floor("C14.cancel", nav, 1)
-		}
-	}
-	// scheduleUnavailable: timer duration is the recovery timeout, handle stored in futureChange
-	okSched := false
-	eachInstr(m.sched, func(in ssa.Instruction) {
-		if call, ok := in.(*ssa.Call); ok && isTimeAfterFunc(&call.Call) {
-			if isLoadOf(call.Call.Args[0], "multiEndpoint.recoveryTimeout") && storedInto(call, "endpoint.futureChange") {
-				okSched = true
-			}
-		}
-	})
-	c.check(okSched, "C14.no-extend", "scheduleUnavailable: timer", p.pos(m.sched.Pos()), "timer of recoveryTimeout whose handle is kept in futureChange (so setState can stop it)", "recovery timer is not armed with the recovery timeout or its handle is dropped")
+	statusRules(m, c, func(r string) string { return r })
 
 	// ---- C14.delay (switchFromTo)
 	f, t := m.sft.Params[1], m.sft.Params[2]
@@ -202,8 +32,11 @@ func checkC14(c *Ctx, w *World) {
 		eqAtom("noDelay", loadOf("multiEndpoint.switchingDelay"), constIs(0)),
 		eqAtom("fromNil", isVal(f), isNil),
 		eqAtom("fromUnavailable", statusOf(isVal(f)), constIs(m.unavailable)),
+		eqAtom("fromAvailable", statusOf(isVal(f)), constIs(m.available)),
+		eqAtom("fromRecovering", statusOf(isVal(f)), constIs(m.recovering)),
 	}
 	cs := newCondSpace(m.sft, recOf(atoms...), atomNames(atoms...)...)
+	cs.ExactlyOne("fromUnavailable", "fromAvailable", "fromRecovering") // closed domain: C14.status "endpoint.status domain"
 	A := cs.Atom
 	immediate := cs.And(cs.Not(A("alreadyCurrent")), cs.Or(A("noDelay"), A("fromNil"), A("fromUnavailable")))
 	nim, ndl := 0, 0
@@ -238,6 +71,105 @@ func checkC14(c *Ctx, w *World) {
 				c.fail("C14.revalidate", construct, p.ipos(st), why)
 			}
 		}
+	}
+	delayedSwitchRule(m, c)
+}
+
+// statusDomainClosed: all stores to endpoint.status hold one of the three status constants.
+func statusDomainClosed(m *mectx) bool {
+	isStatusConst := func(v ssa.Value) bool {
+		k, ok := constInt(v)
+		return ok && (k == m.unavailable || k == m.available || k == m.recovering)
+	}
+	n := 0
+	for _, a := range m.ai.ByField["endpoint.status"] {
+		if !a.isWrite() {
+			continue
+		}
+		st, ok := a.Instr.(*ssa.Store)
+		if !ok {
+			return false
+		}
+		n++
+		for _, o := range origins(st.Val) {
+			if prm, isP := o.Val.(*ssa.Parameter); isP && prm.Parent() == m.setState {
+				for _, g := range m.p.Funcs {
+					for _, call := range m.callsIn(g, m.setState) {
+						if !isStatusConst(call.Call.Args[1]) {
+							return false
+						}
+					}
+				}
+				continue
+			}
+			if !isStatusConst(o.Val) {
+				return false
+			}
+		}
+	}
+	return n >= 2
+}
+
+// delayedSwitchRule: the delayed-switch timer moves current only to its still-present, still-available target, and never
+// from a present current endpoint that is available or recovering to a lower-priority one (exact reaching condition
+// over the closure's own lookups; the status domain is closed by C14.status).
+func delayedSwitchRule(m *mectx, c *Ctx) {
+	p, fn := m.p, m.delayed
+	var lkF, lkC *ssa.Lookup
+	eachInstr(fn, func(in ssa.Instruction) {
+		if l, ok := in.(*ssa.Lookup); ok && l.CommaOk && isLoadOf(l.X, "multiEndpoint.endpoints") {
+			if isLoadOf(l.Index, "multiEndpoint.future") {
+				lkF = l
+			}
+			if isLoadOf(l.Index, "multiEndpoint.current") {
+				lkC = l
+			}
+		}
+	})
+	var stores []*ssa.Store
+	for _, a := range m.ai.ByFn[fn] {
+		if a.Field == "multiEndpoint.current" && a.What == "store" {
+			stores = append(stores, a.Instr.(*ssa.Store))
+		}
+	}
+	if len(stores) == 0 {
+		return // the closure delegates the decision (covered by C13.writers / C14.revalidate)
+	}
+	if lkF == nil || lkC == nil {
+		c.fail("C14.revalidate", "delayed switch: decision", p.pos(fn.Pos()), "the delayed-switch timer stores current without looking up both its target and the current endpoint in its own critical section")
+		return
+	}
+	isF := func(v ssa.Value) bool { return isExtractOf(stripConv(v), lkF, 0) }
+	isC := func(v ssa.Value) bool { return isExtractOf(stripConv(v), lkC, 0) }
+	atoms := []atomDef{
+		boolAtom("targetPresent", func(v ssa.Value) bool { return isExtractOf(stripConv(v), lkF, 1) }),
+		boolAtom("curPresent", func(v ssa.Value) bool { return isExtractOf(stripConv(v), lkC, 1) }),
+		eqAtom("targetAvailable", statusOf(isF), constIs(m.available)),
+		eqAtom("targetUnavailable", statusOf(isF), constIs(m.unavailable)),
+		eqAtom("targetRecovering", statusOf(isF), constIs(m.recovering)),
+		eqAtom("curAvailable", statusOf(isC), constIs(m.available)),
+		eqAtom("curUnavailable", statusOf(isC), constIs(m.unavailable)),
+		eqAtom("curRecovering", statusOf(isC), constIs(m.recovering)),
+		ltAtom("curBetter", prioOf(isC), prioOf(isF)),
+	}
+	cs := newCondSpace(fn, recOf(atoms...), atomNames(atoms...)...)
+	if cs.err != "" {
+		c.undecided("C14.revalidate", "delayed switch: decision", p.pos(fn.Pos()), cs.err)
+		return
+	}
+	cs.ExactlyOne("targetAvailable", "targetUnavailable", "targetRecovering")
+	cs.ExactlyOne("curAvailable", "curUnavailable", "curRecovering")
+	A := cs.Atom
+	for _, st := range stores {
+		reach := cs.Reach(st)
+		_, tgt, _ := loadedField(st.Val)
+		imp1, w1 := cs.Implies(reach, cs.And(A("targetPresent"), A("targetAvailable")))
+		c.check(imp1 && tgt != nil && isF(tgt), "C14.revalidate", "delayed switch: target still present and available", p.ipos(st),
+			"the timer moves current only to its target, and only if that is still in the table and available now", "the delayed switch can move current to a target that was removed or is no longer available: "+w1)
+		imp2, w2 := cs.Implies(cs.And(reach, A("curPresent"), A("curBetter")), A("curUnavailable"))
+		c.check(imp2, "C14.revalidate", "delayed switch: never down from a usable endpoint", p.ipos(st),
+			"current moves to a lower-priority target only when the current endpoint is gone or unavailable (not while it is available or still recovering)",
+			"an outdated delayed switch can move current from an endpoint that is available or still inside its recovery window to a lower-priority one: "+w2)
 	}
 }
 
@@ -324,6 +256,189 @@ func justifiedStore(m *mectx, fn *ssa.Function, st *ssa.Store) (bool, string) {
 		}
 	}
 	return true, "value is justified inside the critical section that stores it (top-available scan, priority comparison, or current missing/unavailable)"
+}
+
+// statusRules: the endpoint status variable changes only through the specified transitions (shared by C13, whose
+// decision clauses are stated over "available / recovering / known unavailable", and C14). R maps the rule names.
+func statusRules(m *mectx, c *Ctx, R func(string) string) {
+	p := m.p
+	// ---- C14.status
+	m.whoMayWrite(R("C14.status"), "endpoint.status", map[string][]string{fname(m.setState): {"store"}})
+	m.whoMayWrite(R("C14.status"), "endpoint.lastChange", map[string][]string{fname(m.setState): {"store"}})
+	m.whoMayWrite(R("C14.status"), "endpoint.futureChange", map[string][]string{fname(m.sched): {"store"}})
+	e, s := m.setState.Params[0], m.setState.Params[1]
+	var stStore, tsStore *ssa.Store
+	var stopCall *ssa.Call
+	for _, a := range m.ai.ByFn[m.setState] {
+		if a.What == "store" && a.Base == ssa.Value(e) {
+			st := a.Instr.(*ssa.Store)
+			if a.Field == "endpoint.status" && st.Val == ssa.Value(s) {
+				stStore = st
+			}
+			if a.Field == "endpoint.lastChange" && isTimeNowVar(st.Val) {
+				tsStore = st
+			}
+		}
+	}
+	eachInstr(m.setState, func(in ssa.Instruction) {
+		if call, ok := in.(*ssa.Call); ok && call.Call.IsInvoke() && call.Call.Method.Name() == "Stop" {
+			if f, base, isL := loadedField(call.Call.Value); isL && f == "endpoint.futureChange" && base == ssa.Value(e) {
+				stopCall = call
+			}
+		}
+	})
+	okSS := stStore != nil && tsStore != nil && stopCall != nil
+	if okSS {
+		for _, r := range returnsOf(m.setState) {
+			if !dominatesInstr(stStore, r) || !dominatesInstr(tsStore, r) {
+				okSS = false
+			}
+		}
+		cs := newCondSpace(m.setState, recOf(eqAtom("noTimer", func(v ssa.Value) bool { f, b, ok := loadedField(v); return ok && f == "endpoint.futureChange" && b == ssa.Value(e) }, isNil)), "noTimer")
+		// Stop is skipped only when there is no timer
+		acs := newCondSpaceAvoid(m.setState, recOf(eqAtom("noTimer", func(v ssa.Value) bool { f, b, ok := loadedField(v); return ok && f == "endpoint.futureChange" && b == ssa.Value(e) }, isNil)), map[*ssa.BasicBlock]bool{stopCall.Block(): true}, "noTimer")
+		_ = cs
+		if imp, _ := acs.Implies(acs.Reach(stStore), acs.Atom("noTimer")); !imp {
+			okSS = false
+		}
+		if !dominatesOrBefore(stopCall, stStore) {
+			okSS = false
+		}
+	}
+	c.check(okSS, R("C14.status"), "setState: stop, store, stamp", p.pos(m.setState.Pos()), "on every path a pending timer is stopped (skipped only when none exists), then the status is stored and lastChange stamped with timeNow()", "setState does not stop the pending timer, store the status and stamp the change time on every path")
+	// status changes go through setState only: callers
+	m.whoMayCall(R("C14.status"), m.setState, fname(m.seaInner), fname(m.recovery))
+
+	// ---- C14.outdated
+	for _, cl := range []*ssa.Function{m.delayed, m.recovery} {
+		first := true
+		var lockIns ssa.Instruction
+		for _, in := range cl.Blocks[0].Instrs {
+			if cc := callCommon(in); cc != nil {
+				if op, ok := m.lf.lockOpOf(cc); ok && op.kind == "Lock" && op.lock == "multiEndpoint.RWMutex" {
+					if _, isDefer := in.(*ssa.Defer); !isDefer {
+						lockIns = in
+						break
+					}
+				}
+				first = false
+			}
+		}
+		okAcc := lockIns != nil && first
+		for _, a := range m.ai.ByFn[cl] {
+			if a.Mode == "L" || a.Field == "multiEndpoint.RWMutex" {
+				continue
+			}
+			if m.lf.HeldAt(a.Instr)["multiEndpoint.RWMutex"] != 2 {
+				okAcc = false
+			}
+		}
+		c.check(okAcc, R("C14.outdated"), fname(cl)+": locks first", p.pos(cl.Pos()), "the timer callback takes the write lock before touching any state", "timer callback accesses state before/without taking the write lock")
+	}
+	// the recovery closure acts only if lastChange still equals the stamp captured at scheduling time
+	var capturedStamp *ssa.FreeVar
+	for _, fv := range m.recovery.FreeVars {
+		if b := freeVarBinding(fv); b != nil {
+			if al, ok := b.(*ssa.Alloc); ok {
+				sts := storesTo(al)
+				if len(sts) == 1 {
+					if f, base, isL := loadedField(sts[0].Val); isL && f == "endpoint.lastChange" && originsAll(base, func(o Origin) bool { return o.Val == ssa.Value(m.sched.Params[1]) }) {
+						capturedStamp = fv
+					}
+				}
+			}
+		}
+	}
+	isCapturedE := func(v ssa.Value) bool {
+		return originsAll(v, func(o Origin) bool { return o.Val == ssa.Value(m.sched.Params[1]) })
+	}
+	isStampNow := func(v ssa.Value) bool {
+		f, base, ok := loadedField(v)
+		return ok && f == "endpoint.lastChange" && isCapturedE(base)
+	}
+	isStampThen := func(v ssa.Value) bool {
+		u, ok := stripConv(v).(*ssa.UnOp)
+		return ok && capturedStamp != nil && u.X == ssa.Value(capturedStamp)
+	}
+	rcs := newCondSpace(m.recovery, recOf(eqAtom("stampUnchanged", isStampNow, isStampThen)), "stampUnchanged")
+	nss := 0
+	for _, call := range m.callsIn(m.recovery, m.setState) {
+		nss++
+		imp, wit := rcs.Implies(rcs.Reach(call), rcs.Atom("stampUnchanged"))
+		stv, isC := constInt(call.Call.Args[1])
+		c.check(imp && rcs.Seen("stampUnchanged") && isC && stv == m.unavailable && isCapturedE(call.Call.Args[0]), R("C14.outdated"), "recovery timer: re-validates its stamp", p.ipos(call),
+			"the endpoint is marked unavailable only if its lastChange still equals the value captured when the timer was scheduled (any later state change outdates the timer)",
+			"an outdated recovery timer can still mark the endpoint unavailable: "+wit)
+	}
+	c.floor(R("C14.outdated"), nss, 1)
+
+	// ---- C14.no-extend
+	sites := m.whoMayCall(R("C14.no-extend"), m.sched, fname(m.newEp), fname(m.seaInner))
+	for _, s := range sites {
+		switch s.Fn {
+		case m.newEp:
+			isNew := func(v ssa.Value) bool { al, ok := stripConv(v).(*ssa.Alloc); return ok && al.Parent() == m.newEp }
+			cs := newCondSpace(m.newEp, recOf(eqAtom("recovering", statusOf(isNew), constIs(m.recovering))), "recovering")
+			imp, wit := cs.Implies(cs.Reach(s.Instr), cs.Atom("recovering"))
+			c.check(imp, R("C14.no-extend"), "newEndpoint → scheduleUnavailable", p.ipos(s.Instr), "a new endpoint gets a recovery timer only when it starts as recovering", "timer scheduled for a new endpoint that is not recovering: "+wit)
+		case m.seaInner:
+			var lk *ssa.Lookup
+			eachInstr(m.seaInner, func(in ssa.Instruction) {
+				if l, ok := in.(*ssa.Lookup); ok && l.CommaOk && isLoadOf(l.X, "multiEndpoint.endpoints") && l.Index == ssa.Value(m.seaInner.Params[1]) {
+					lk = l
+				}
+			})
+			isEE := func(v ssa.Value) bool { return lk != nil && isExtractOf(stripConv(v), lk, 0) }
+			atoms := []atomDef{
+				boolAtom("known", func(v ssa.Value) bool { return lk != nil && isExtractOf(stripConv(v), lk, 1) }),
+				boolAtom("avail", isVal(m.seaInner.Params[2])),
+				eqAtom("wasAvailable", statusOf(isEE), constIs(m.available)),
+				eqAtom("wasUnavailable", statusOf(isEE), constIs(m.unavailable)),
+				eqAtom("wasRecovering", statusOf(isEE), constIs(m.recovering)),
+				eqAtom("noRecovery", loadOf("multiEndpoint.recoveryTimeout"), constIs(0)),
+			}
+			cs := newCondSpace(m.seaInner, recOf(atoms...), atomNames(atoms...)...)
+			cs.ExactlyOne("wasAvailable", "wasUnavailable", "wasRecovering") // closed domain: C14.status "endpoint.status domain"
+			A := cs.Atom
+			imp, wit := cs.Implies(cs.Reach(s.Instr), cs.And(A("known"), cs.Not(A("avail")), A("wasAvailable"), cs.Not(A("noRecovery"))))
+			c.check(imp, R("C14.no-extend"), "setEndpointAvailability → scheduleUnavailable", p.ipos(s.Instr), "a recovery timer is scheduled only on the available→recovering transition of a known endpoint with a recovery timeout: repeated unavailable reports schedule nothing", "an unavailable report for an endpoint that is already recovering/unavailable can (re)schedule the recovery timer, extending the window: "+wit)
+			// the scheduling is preceded by setState(ee, recovering)
+			okPrev := false
+			for _, call := range m.callsIn(m.seaInner, m.setState) {
+				if v, isC := constInt(call.Call.Args[1]); isC && v == m.recovering && isEE(call.Call.Args[0]) && dominatesInstr(call, s.Instr) {
+					okPrev = true
+				}
+			}
+			c.check(okPrev, R("C14.no-extend"), "recovering state set before scheduling", p.ipos(s.Instr), "setState(ee, recovering) dominates the scheduling (the timer captures the fresh stamp)", "timer scheduled without first entering the recovering state")
+			// ---- C14.cancel: availability report always reaches setState(ee, available)
+			nav := 0
+			for _, call := range m.callsIn(m.seaInner, m.setState) {
+				if v, isC := constInt(call.Call.Args[1]); isC && v == m.available {
+					nav++
+					eq, w2 := cs.Equiv(cs.OnlyNamed(cs.Reach(call)), cs.And(A("known"), A("avail")))
+					c.check(eq && isEE(call.Call.Args[0]), R("C14.cancel"), "setEndpointAvailability: available report", p.ipos(call), "setState(ee, available) ⇔ known endpoint ∧ report says available (pending recovery timer stopped and outdated)", "an availability report does not always mark the endpoint available: "+w2)
+				}
+				if v, isC := constInt(call.Call.Args[1]); isC && v == m.unavailable {
+					eq, w2 := cs.Equiv(cs.OnlyNamed(cs.Reach(call)), cs.And(A("known"), cs.Not(A("avail")), A("wasAvailable"), A("noRecovery")))
+					c.check(eq, R("C14.cancel"), "setEndpointAvailability: immediate unavailable", p.ipos(call), "setState(ee, unavailable) ⇔ known ∧ unavailable report ∧ was available ∧ no recovery timeout", "immediate unavailability is applied under the wrong condition: "+w2)
+				}
+			}
+			c.floor(R("C14.cancel"), nav, 1)
+		}
+	}
+	// the status domain is closed: every value ever stored is one of the three constants
+	c.check(statusDomainClosed(m), R("C14.status"), "endpoint.status domain", p.pos(m.setState.Pos()), "every stored status is one of the constants unavailable/available/recovering (setState's argument at all call sites, newEndpoint's literal)", "a status outside {unavailable, available, recovering} can be stored")
+	// scheduleUnavailable: timer duration is the recovery timeout, handle stored in futureChange
+	okSched := false
+	eachInstr(m.sched, func(in ssa.Instruction) {
+		if call, ok := in.(*ssa.Call); ok && isTimeAfterFunc(&call.Call) {
+			if isLoadOf(call.Call.Args[0], "multiEndpoint.recoveryTimeout") && storedInto(call, "endpoint.futureChange") {
+				okSched = true
+			}
+		}
+	})
+	c.check(okSched, R("C14.no-extend"), "scheduleUnavailable: timer", p.pos(m.sched.Pos()), "timer of recoveryTimeout whose handle is kept in futureChange (so setState can stop it)", "recovery timer is not armed with the recovery timeout or its handle is dropped")
+
 }
 
 var _ = strings.HasPrefix
